@@ -236,10 +236,10 @@ def shard(shard, nshards, rng, tier, extra):
                     if tier == 'quick' and rng.random() < 0.5: continue
                     cases.append(gen(rng, small=(fxm, fym, cx, cy)))
     check(cases, res, 'A:all-code-pairs-small')
-    check([gen(rng) for _ in range((6000 if tier == 'quick' else 150000) // nshards)], res, 'B:random')
+    check([gen(rng) for _ in range((18000 if tier == 'quick' else 150000) // nshards)], res, 'B:random')
     # (Q) the same constant and operand format under two different configurations, one operation after the other
     seq = []
-    while len(seq) < (400 if tier == 'quick' else 10000) // nshards:
+    while len(seq) < (1200 if tier == 'quick' else 10000) // nshards:
         c = gen(rng)
         if 'const' not in c or c['input_size'] != 'same': continue
         c['const_val'] = rng.choice([rng.randint(-300, 300) / 2.0**rng.randint(3, 6), rng.randint(-300, 300) / 4.0, 1000, -77.125])    # mostly not representable in the operand's format
